@@ -411,6 +411,30 @@ Proof.
   destruct (J_exact content isman content_isman s'' HJ' n) as [Hd2 Hm2].
   apply NoDup_Permutation; auto. intro p. rewrite Hm1, Hm2, Hb. tauto.
 Qed.
+
+(* at EVERY reachable state, quiescent or not: no extra and no duplicate answer, and the only
+   stored referencing nodes that may still be missing are those whose Push is between its
+   storage step and its index step *)
+Lemma concurrent_anytime fuel ops0 cops trace st' n :
+  let s0 := fst (orun true true true content isman fuel empty_store ops0) in
+  crun content isman fuel (cinit s0 cops) trace = Some st' ->
+  NoDup (predecessors (o_graph (c_s st')) n) /\
+  (forall p, In p (predecessors (o_graph (c_s st')) n) -> In p (o_blobs (c_s st')) /\ In n (content p)) /\
+  (forall p, In p (o_blobs (c_s st')) -> In n (content p) ->
+             In p (predecessors (o_graph (c_s st')) n) \/ existsb (p_push1 p) (c_threads st') = true).
+Proof.
+  intros s0 H.
+  assert (K st') as [H1 H2 H3 H4 H5 H6 H7].
+  { apply (crun_K fuel trace (cinit s0 cops)); auto.
+    apply J_K. apply (orun_J content isman rank content_isman rank_dec). apply J_empty. }
+  destruct (predecessors_exact content (o_graph (c_s st')) H1 n) as [Hd Hm].
+  split; auto. split.
+  - intros p Hp. apply Hm in Hp. destruct Hp as [Hp Hn]. split; auto.
+    apply H3; auto. apply content_isman. intro E. rewrite E in Hn. destruct Hn.
+  - intros p Hp Hn.
+    assert (isman p = true) as Hmp by (apply content_isman; intro E; rewrite E in Hn; destruct Hn).
+    destruct (H4 p Hp Hmp) as [Hx|Hx]; auto. left. apply Hm. auto.
+Qed.
 End Conc.
 
 (* a complete interleaved run: two pushes and a tag step by step, then an exclusive delete *)
